@@ -30,7 +30,7 @@
    No axioms. *)
 From Coq Require Import Lia.
 From JP Require Import Bytes Json Text Strings Den Pointer Rfc6902 ImplV5 Domain DecodeFacts JsonFacts Abs
-                       EqualFacts ParseFacts ImplFacts RefFacts ApplyFacts Codec StrInv ApplySim.
+                       EqualFacts ParseFacts ImplFacts RefFacts ApplyFacts Codec StrInv Depth ApplySim.
 
 Local Open Scope Z_scope.
 
@@ -514,12 +514,28 @@ Theorem C01_on_boolean_domain o indent patch p doc t :
   plain_opts o ->
   api_decode patch = Some p -> in_domain_C01 p = true -> forallb op_small p = true ->
   parse doc = Some t -> root_container t = true -> tnodup t = true ->
+  copies_fit (dia o) (den t) (map den_op p) = true ->
   match rfc_apply (dia o) (den t) (map den_op p) with
   | Done j => exists n, api_apply o indent p doc = ROut (output o indent (render (o_esc o) n)) /\ aval n = j /\ ngood n
   | Failed i cz => exists e, api_apply o indent p doc = RErr (Some i) e /\ cause_rel cz e
   end.
 Proof.
-  intros PO Dc D S P R N. apply api_apply_sim with (t := t); auto.
+  intros PO Dc D S P R N F. apply api_apply_sim with (t := t); auto.
+  eapply decoded_in_domain_op_dom; eauto.
+Qed.
+
+(* and when a copy the reference run reaches is too deep for deepCopy: an error, at an operation *)
+Theorem C01_on_boolean_domain_too_deep o indent patch p doc t :
+  plain_opts o ->
+  api_decode patch = Some p -> in_domain_C01 p = true -> forallb op_small p = true ->
+  parse doc = Some t -> root_container t = true -> tnodup t = true ->
+  copies_fit (dia o) (den t) (map den_op p) = false ->
+  match rfc_apply (dia o) (den t) (map den_op p) with
+  | Done _ => exists j, api_apply o indent p doc = RErr (Some j) EInvalid
+  | Failed k cz => exists j e, api_apply o indent p doc = RErr (Some j) e /\ (e = EInvalid \/ (j = k /\ cause_rel cz e))
+  end.
+Proof.
+  intros PO Dc D S P R N F. apply api_apply_copy_too_deep with (t := t); auto.
   eapply decoded_in_domain_op_dom; eauto.
 Qed.
 
